@@ -112,7 +112,7 @@ fn run_case(line: &str) {
 /// A case of the real code that does not return is a finding, not a reason to hang the check:
 /// after the time limit the pending output and `<case> => hang` are written and the shard ends.
 fn start_watchdog() {
-    let limit = std::env::var("VERIF_CASE_TIMEOUT_S").ok().and_then(|s| s.parse::<u64>().ok()).unwrap_or(90);
+    let limit = std::env::var("VERIF_CASE_TIMEOUT_S").ok().and_then(|s| s.parse::<u64>().ok()).unwrap_or(240);
     std::thread::spawn(move || loop {
         std::thread::sleep(std::time::Duration::from_millis(250));
         let mut st = STATE.lock().unwrap();
